@@ -7,6 +7,7 @@ import PlasVerif.Driver.C08
 import PlasVerif.Driver.C15
 import PlasVerif.Driver.C07
 import PlasVerif.Driver.C16
+import PlasVerif.Driver.C20
 /-!
 Line-protocol driver: one request per line `<property> <stream> <payload…>`, one
 answer per line `<model output>\t<spec output or ->[\t<aux>]`.  Imports only `Model`,
@@ -26,6 +27,7 @@ def dispatch (line : String) : String :=
   | "C15" :: r => C15.handle r
   | "C07" :: r => C07.handle r
   | "C16" :: r => C16.handle r
+  | "C20" :: r => C20.handle r
   | _ => "bad-op"
 
 partial def loop (h : IO.FS.Stream) (out : IO.FS.Stream) : IO Unit := do
